@@ -212,7 +212,7 @@ func c20Config(smtp bool) world.Config {
 
 func c20ConfigBase(smtp bool) world.Config {
 	return world.Config{Modules: []string{"auth", "otp", "remember", "register", "confirm", "recover", "oauth2", "logout", "totp2fa", "recovery"},
-		EmailAuthRequired: true, MailGoroutine: true, SMTPMailer: smtp, LogMailer: !smtp, RecoverLoginAfter: false, ModuleList: true, PerClientData: true, ProtFail: authboss.RespondRedirect}
+		EmailAuthRequired: true, MailGoroutine: true, SMTPMailer: smtp, LogMailer: !smtp, RecoverLoginAfter: false, ModuleList: true, PerClientData: true, ProtFail: authboss.RespondRedirect, CustomFailures: true, RegisterWhitelist: []string{"email", "password", "name"}}
 }
 
 // c20Fixture builds a fresh instance and world for the given scripts.
